@@ -5,7 +5,7 @@ From Coq Require Import String.
 Open Scope string_scope.
 
 Definition verified_execute_Execute : string :=
-  "(MakeChan x0 maxResultBuffer)(Defer (Close x0))(MakeChan x1 0)(Defer (Close x1))(If {(Return)})(Range {(Add x2 1)(Go executeStep)})(Go {(For {(Select (On (Recv x0) {(If {(Return)})(Call executorInsertObject)(Switch (Case {})(Case {})(Case {(Done x2)}))})(On (Recv x1) {(Return)}))})})(Wait x2)(Lock x3)(Defer (Unlock x3))(If {(Return)})(Return)".
+  "(MakeChan x0 maxResultBuffer)(Defer (Close x0))(MakeChan x1 0)(Defer (Close x1))(If {(Return)})(Range {(Add x2 1)(Go executeStep)})(Closure recordErr {(Lock x3)(If {(Append errs)} else {(Append errs)})(Unlock x3)(Done x2)})(Go {(For {(Select (On (Recv x0) {(If {(Return)})(Call executorInsertObject)(Switch (Case {(CallLocal recordErr)})(Case {(CallLocal recordErr)})(Case {(Done x2)}))})(On (Recv x1) {(Return)}))})})(Wait x2)(Lock x3)(Defer (Unlock x3))(If {(Return)})(Return)".
 
 Definition verified_execute_executeStep : string :=
   "(Call executeOneStep)(Add x0 len)(Send x1)(Range {(Go executeStep)})".
@@ -30,6 +30,18 @@ Definition verified_cache_Retrieve : string :=
 
 Definition verified_gateway_Execute : string :=
   "(If {} else {(If {(Return)})(Call .ForOperation)(If {(Return)})})(Call .Execute)(Range {(If {(Return)})})(Return)".
+
+Definition verified_execute_executorExtractValue : string :=
+  "(Range {(If (Call isListElement){(Call executorGetPointData)(If {(Return)})(If {(Return)})(If {(Lock x0)(StoreAt recentObj[pointData.Field])(Unlock x0)})(Lock x0)(Unlock x0)(If {(Return)})(If {(For {(Append targetList)})(Lock x0)(StoreAt recentObj[pointData.Field])(Unlock x0)})(Lock x0)(Unlock x0)} else {(Call executorGetPointData)(If {(Return)})(If {(Return)})(Lock x0)(Unlock x0)(If {(Lock x0)(StoreAt recentObj[pointField])(Unlock x0)})(If {(StoreAt recentObj[pointField])})})})(Return)".
+
+Definition verified_execute_executorInsertObject : string :=
+  "(If {(Call executorExtractValue)(If {(Return)})(If {(Return)})(If {(Lock x0)(Call executorMergeObject)(Unlock x0)})} else {(If {(Return)})(Lock x0)(Call executorMergeObject)(Unlock x0)})(Return)".
+
+Definition verified_execute_executorFindInsertionPoints : string :=
+  "(If {(If {(Return)})})(For {(Call findSelection)(If {(Return)})(If {(Return)})(If {(Return)})(If {(If {(Return)})(Return)})(If {(If {(Return)})(Range {(If {(Continue)})(If {(Return)})(Range {(Append newBranchSet)(Call copyStrings)})(If {(Range {(If {(If {(Return)})})(Append newBranchSet[i])(StoreAt newBranchSet[i])})} else {(Append newBranchSet)})(Call executorFindInsertionPoints)(If {(Return)})(Append newInsertionPoints)})(Return)})(Range {(Append oldBranch[i])(StoreAt oldBranch[i])})(If {(If {(Range {(If {(Return)})(If {(Return)})(Lock x0)(Unlock x0)(If {(Return)})(StoreAt oldBranch[i][pointI])})} else {(If {(Return)})(Range {(If {(Return)})(StoreAt oldBranch[i][pointI])})})})})(Return)".
+
+Definition verified_middlewares_scrubInsertionIDs : string :=
+  "(Range {(Range {(Call executorFindInsertionPoints)(If {(Return)})(Range {(Call executorExtractValue)(If {(Return)})(If {(Return)})})})})(Return)".
 
 Definition verified_writes_gateway_Execute : string :=
   "".
